@@ -13,7 +13,7 @@ use serde::{Deserialize, Serialize};
 use std::collections::BTreeMap;
 use std::time::Instant;
 
-pub const RULE: &str = "cases = one accepted graph + kinematics, 4 x-space points and a history of 1..40 operations on a shared sampler: SampleX(point, return_metadata, print_debug_info, stability None/Some(1e300)), SampleRng(seed, flags), SampleNear(point with one coordinate moved by 1..8 ulps, flags), UseClone, UseSerdeCopy (continue with a JSON round-tripped copy), Rebuild (continue with a sampler built again from the same graph), SampleStrict (stability tolerance 1e-18: the error path), SampleOther (same point, other masses/shifts), Aux (a different sampler sampled in between), Burst(t<=8 threads x m<=6 samples on the shared sampler), ConstPair (main, auxiliary, main sampler at the point whose coordinates all equal one value: every partial key of the arguments coincides), Threshold (bisection for the smallest accepting stability tolerance t*, then all four flag settings at t* and at the next smaller float must agree with the plain call). model = map (point, stability setting) -> first observed bit pattern of (loop_momenta,u,v,u_trop,v_trop,jacobian | error kind); invariant after every step: every observation equals the model, for all combinations of return_metadata x print_debug_info. generate_sample_from_rng: the rng is cloned, get_dimension() numbers are drawn from the clone, the result must equal the x-space call on those numbers and both rngs must be in the same state afterwards. cross-process: the same graphs/points are sampled in a freshly started process (different hash seeds) and compared bit for bit. non-trivial = history with >= 2 distinct flag settings and a thread burst; distinct = distinct case encodings";
+pub const RULE: &str = "cases = one accepted graph + kinematics, 4 x-space points and a history of 1..40 operations on a shared sampler: SampleX(point, return_metadata, print_debug_info, stability None/Some(1e300)), SampleRng(seed, flags), SampleNear(point with one coordinate moved by 1..8 ulps, flags), UseClone, UseSerdeCopy (continue with a JSON round-tripped copy), Rebuild (continue with a sampler built again from the same graph), SampleStrict (stability tolerance 1e-18: the error path), SampleOther (same point, other masses/shifts), Aux (a different sampler sampled in between), Burst(t<=8 threads x m<=6 samples on the shared sampler), ConstPair (main, auxiliary, main sampler at the point whose coordinates all equal one value: every partial key of the arguments coincides), Threshold (bisection for the smallest accepting stability tolerance t*, then all four flag settings at t* and at the next smaller float must agree with the plain call). model = map (point, stability setting) -> first observed bit pattern of (loop_momenta,u,v,u_trop,v_trop,jacobian | error kind); invariant after every step: every observation equals the model, for all combinations of return_metadata x print_debug_info. generate_sample_from_rng: the rng is cloned, get_dimension() numbers are drawn from the clone, the result must equal the x-space call on those numbers and both rngs must be in the same state afterwards. cross-process: the same graphs/points are sampled in a freshly started process (different hash seeds) and compared bit for bit; in the parent process every sampler is preceded by a build of the same graph for another dimension. non-trivial = history with >= 2 distinct flag settings and a thread burst; distinct = distinct case encodings";
 
 #[derive(Clone, Debug, Serialize, Deserialize)]
 pub enum Op {
@@ -455,7 +455,26 @@ fn cross_process(tier: Tier, seed: u64, stats: &mut Stats) -> serde_json::Value 
     let n = tier.pick(150, 3000);
     let tapes = engine::sample_tapes("C17-xproc", seed, n * 2, 700);
     let items: Vec<XItem> = tapes.iter().filter_map(|tp| gen_case(&mut Tape::new(tp), tier)).take(n).map(|c| XItem { p: c.p, points: c.points }).collect();
-    let mine: Vec<Vec<Vec<u64>>> = items.iter().map(sample_all).collect();
+    // in THIS process every sampler is preceded by building the same graph for another dimension D' (and, every third
+    // time, with other externals): the fresh process builds each graph on its own
+    let mine: Vec<Vec<Vec<u64>>> = items
+        .iter()
+        .enumerate()
+        .map(|(i, it)| {
+            fn b<const D: usize>(g: &crate::oracle::graph::G, sig: &[Vec<isize>]) {
+                let _ = sut::build::<D>(g, sig.to_vec());
+            }
+            let d2 = it.p.g.d % 6 + 1;
+            let mut g2 = it.p.g.clone();
+            g2.d = d2;
+            if i % 3 == 0 {
+                g2.externals.reverse();
+                g2.externals.pop();
+            }
+            with_d!(d2, b(&g2, &it.p.kin.sig));
+            sample_all(it)
+        })
+        .collect();
     let input = serde_json::to_string(&items).unwrap();
     match xproc::run_child("samples", &input) {
         Err(e) => {
